@@ -10,11 +10,13 @@ for d in seeded/*/; do
   git -C /repo apply $(realpath $d)/patch.diff
   verdicts=""
   for c in $pid ${ALSO[$id]}; do
+    cp evidence/$c.json /tmp/evidence.$c.keep 2>/dev/null   # the evidence of a run on a changed tree is not kept
     out=$(timeout 2400 ./check $c --tier quick 2>&1)
     n=$(echo "$out" | grep -c "^VIOLATION")
     first=$(echo "$out" | grep "^VIOLATION" | head -1 | sed 's/.*replay=//')
     sig=""
     [ -n "$first" ] && sig=$(python3 -c "import json,sys;print(json.load(open('${first%% *}'))['signature'])" 2>/dev/null)
+    [ -f /tmp/evidence.$c.keep ] && mv /tmp/evidence.$c.keep evidence/$c.json
     verdicts="$verdicts{\"check\":\"$c\",\"violations\":$n,\"first_signature\":\"$sig\"},"
   done
   git -C /repo checkout -q -- .
